@@ -4,7 +4,7 @@ import typing
 from collections import deque
 from collections.abc import Iterable
 from collections.abc import Set as AbstractSet
-from decimal import Decimal
+from decimal import Decimal, localcontext
 from fractions import Fraction
 from enum import Enum, EnumMeta
 from functools import partial
@@ -891,7 +891,10 @@ class Constraints:
         if isinstance(value, Decimal):
             # if current decimal is Decimal('1.3') and decimal places is 2
             # we will make it Decimal('1.30') by using round
-            return round(value, d)
+            with localcontext() as ctx:
+                # the completed value needs room for all its digits, whatever the caller's decimal context is
+                ctx.prec = max(ctx.prec, digits + d + 2)
+                return round(value, d)
         return value
 
     @classmethod
@@ -900,9 +903,11 @@ class Constraints:
 
     @classmethod
     def _mod(cls, value, of):
-        if isinstance(value, int) and isinstance(of, float):
-            # int % float converts the int to a float first, which is not exact beyond 2 ** 53
-            return Fraction(value) % Fraction(of)
+        if isinstance(value, (int, Decimal)) and not isinstance(value, bool):
+            # exact arithmetic for exact values: int % float converts the int to a float first (not exact beyond
+            # 2 ** 53), Decimal % float is a TypeError, and Decimal % int depends on the precision of the
+            # current decimal context; a float step means its decimal text (0.1 is one tenth)
+            return Fraction(value) % Fraction(str(of) if isinstance(of, float) else of)
         return value % of
 
     @classmethod
@@ -1032,7 +1037,12 @@ class Constraints:
 
     @classmethod
     def regex(cls, value, r):
-        if not re.fullmatch(r, str(value)):
+        if isinstance(value, (bytes, bytearray, memoryview)):
+            # the text of a bytes value is its content, not "b'...'"
+            text = bytes(value).decode("utf-8", errors="replace")
+        else:
+            text = str(value)
+        if not re.fullmatch(r, text):
             raise ValueError
         return value
 
@@ -1889,7 +1899,7 @@ class Rule(metaclass=LogicalType):
             with context.enter(route=i) as item_context:
                 try:
                     item_context.transformer(item, cls.contains)
-                except (TypeError, ValueError):
+                except Exception:   # noqa (a converter may raise OverflowError / decimal.InvalidOperation ...)
                     pass
                 else:
                     contains += 1
